@@ -30,6 +30,9 @@ from values import Unsupported
 VISIBLE = {'Mutex::lock': 'LOCK', 'Iterator::next': 'PULL', 'Fn::call': 'COMPUTE', 'FnMut::call_mut': 'COMPUTE',
            'Atomic::load': 'LOAD', 'AtomicUsize::load': 'LOAD', 'Atomic::swap': 'STORE', 'AtomicUsize::swap': 'STORE',
            'Atomic::store': 'STORE', 'AtomicUsize::store': 'STORE', 'SyncSender::send': 'SEND', 'Sender::send': 'SEND'}
+TIME_CALLS = {'Instant::now', 'Instant::elapsed', 'Duration::from_secs', 'Duration::from_millis', 'Duration::from_micros',
+              'Instant::duration_since', 'SystemTime::now'}
+CMP_CALLS = {'PartialOrd::gt', 'PartialOrd::ge', 'PartialOrd::lt', 'PartialOrd::le', 'PartialEq::eq', 'PartialEq::ne'}
 LOCAL_CALLS = {'Deref::deref', 'DerefMut::deref_mut', 'Result::expect', 'Result::unwrap', 'Result::is_err', 'Result::is_ok',
                'Result::ok', 'Result::err', 'IntoIterator::into_iter', 'Option::is_some', 'Option::is_none', 'mem::drop',
                'thread::sleep', 'thread::yield_now', 'hint::spin_loop', 'Duration::from_micros', 'Duration::from_millis'}
@@ -292,6 +295,7 @@ class Interp:
         """One scheduler step of thread tid at visible block pc: the visible operation, the local blocks after it and
         every directly following operation that cannot interact with other threads (PULL / UNLOCK inside the critical
         section, the computation, the final return)."""
+        self.cur_tid, self.cur_k, self.nd = tid, sh.k, 0
         outs = self.step1(pc, env, sh, tid)
         if not fuse or not self.cfg.get('fuse', True):
             return outs
@@ -412,7 +416,7 @@ class Interp:
             key = self.p.kinds.get(id(blk))
             if key in VISIBLE:
                 return True
-            if key in LOCAL_CALLS:
+            if key in LOCAL_CALLS or key in TIME_CALLS or key in CMP_CALLS:
                 return False
             raise Unsupported('MIRBMC: call to %s in %s is outside the protocol model' % (key, self.p.name))
         return False
@@ -456,6 +460,18 @@ class Interp:
                 self.assign(env, dest, Val('bool', err if key.endswith('is_err') else z3.Not(err)))
             elif key in ('Deref::deref', 'DerefMut::deref_mut', 'Result::expect', 'Result::unwrap', 'IntoIterator::into_iter'):
                 self.assign(env, dest, args[0])
+            elif key in TIME_CALLS:
+                self.assign(env, dest, Val('time'))      # the clock is an arbitrary environment value
+            elif key in CMP_CALLS:
+                if any(a.kind in ('time', 'unit') for a in args):
+                    # comparison of clock values: nondeterministic outcome (every timing)
+                    self.nd += 1
+                    self.assign(env, dest, Val('bool', self.cfg['nondet'](self.cur_tid, self.cur_k, self.nd)))
+                else:
+                    x, y = args[0].a[0], args[1].a[0]
+                    r = {'gt': z3.UGT, 'ge': z3.UGE, 'lt': z3.ULT, 'le': z3.ULE, 'eq': lambda p, q: p == q,
+                         'ne': lambda p, q: p != q}[key.split('::')[1]](x, y)
+                    self.assign(env, dest, Val('bool', r))
             else:
                 self.assign(env, dest, Val('unit'))
             return self.run_local(t.a['target'], env, guard, upd, spin_from, depth + 1)
@@ -521,7 +537,7 @@ class RegFile:
 
 
 def shape_of(v):
-    if v.kind in ('int', 'bool', 'item', 'res'):
+    if v.kind in ('int', 'bool', 'item', 'res', 'time'):
         return (v.kind,)
     if v.kind == 'opt':
         return ('opt', shape_of(v.a[1]))
@@ -546,6 +562,7 @@ class System:
         self.sched = [BVI('%s_sched_%d' % (prefix, k)) for k in range(K)]
         self.panic_bits = {}
         self.cfg['panic_choice'] = self.panic_choice
+        self.cfg['nondet'] = self.nondet
         self.interp = Interp(prog, n_items, self.cfg)
         self.shared = [Shared(k, cap, nmax, prefix) for k in range(K + 1)]
         self.pcs = [[BVI('%s_pc_t%d_%d' % (prefix, t, k)) for t in range(W)] for k in range(K + 1)]
@@ -562,6 +579,12 @@ class System:
         # symmetry breaking: stutter steps only as padding at the end of a trace
         for k in range(len(self.stutters) - 1):
             self.solver.add(z3.Implies(self.stutters[k], self.stutters[k + 1]))
+
+    def nondet(self, tid, k, n):
+        key = ('nd', tid, k, n)
+        if key not in self.panic_bits:
+            self.panic_bits[key] = z3.Bool('%s_nondet_t%d_%d_%d' % (self.prefix, tid, k, n))
+        return self.panic_bits[key]
 
     def panic_choice(self, tid, k):
         key = (tid, k)
